@@ -12,7 +12,8 @@
 From Verif.Base Require Import Bytes.
 From Verif.Tlog Require Import Index Tree Codec Tile TileReader TileSpec.
 From Verif.Note Require Import Note.
-From Verif.Client Require Import Seq SeqProofs SeqProofsTile SeqProofsSafe SeqProofsTop SeqProofsInst.
+From Verif.Client Require Import Seq SeqProofs SeqProofsTile SeqProofsSafe SeqProofsTop SeqProofsInst SeqProofsHonest.
+From Verif.Tlog Require ProofsTree.
 
 (* config_monotone_chain: along any history every WriteConfig (successful or lost to a write
    conflict) writes a head signed under the configured key over a stored head that is empty or
@@ -97,15 +98,32 @@ Proof.
   - unfold sec_memo, new_client. cbn. intros [H|(f & [])]. discriminate.
 Qed.
 
+(* honest growth never triggers Security: along any history of lookups by any number of clients
+   (fresh or initialised, sharing configuration and cache) in an honest world — one log, heads of any
+   sizes up to N presented in any order, cache any subset of the honest files — no Security event is
+   emitted and no lookup returns ErrSecurity; world and clients stay honest.  (HonestWorld, GoodClient:
+   see Props/C01.v, C01_lookup_honest_complete.) *)
+Theorem C13_honest_growth_no_security :
+  forall sha leaf_hash node_hash V esc_path esc_vers skip (T : Z -> Z -> hash) N h,
+  ProofsTree.T_splits node_hash T N -> (forall lo hi, length (T lo hi) = 32%nat) ->
+  0 < N <= 2 ^ 62 -> 1 <= h <= 30 ->
+  forall vs name steps w cs rs evs w' cs',
+  HonestWorld sha leaf_hash V T N h vs name w ->
+  (forall i, GoodClient leaf_hash V T N h vs name (cs i)) ->
+  run sha leaf_hash node_hash V esc_path esc_vers skip steps w cs = (rs, evs, w', cs') ->
+  HonestWorld sha leaf_hash V T N h vs name w' /\
+  (forall i, GoodClient leaf_hash V T N h vs name (cs' i)) /\
+  Forall nosec evs /\ ~ In (LErr ESecurity) rs.
+Proof. exact honest_run_no_security. Qed.
+Print Assumptions C13_honest_growth_no_security.
+
 (* NOT PROVED (targets of DESIGN.md):
    * "the set of heads ever installed is totally ordered by Consistent": needs transitivity of
      Consistent, which holds only up to hash collisions (NodeAt facts for two different roots);
      the per-step statement C13_config_monotone_chain is what is proved.
    * consistent_iff_check_tree (Consistent older newer <-> exists p, check_tree p newer older = Ok):
      not attempted; Consistent is stated directly as what checkTrees computes.
-   * "honest growth never triggers Security": needs the completeness composition (see Props/C01.v);
-     decided by the oracles "honest-no-security" and "security-reports-both-heads" (every
-     SecurityError callback must name two mutually INCONSISTENT heads of the harness's ground truth).
    * the retry branch of mergeLatestMem (c.latest changed underfoot by a concurrent lookup of the
-     same client) does not exist in the sequential model; fork_reports_both_heads for that path is
-     decided only by the overlapping-lookups stream of harness/props/c13.go (oracle strength). *)
+     same client) and interleavings of the configuration operations of several clients do not exist
+     in the sequential model; those paths are decided only by the overlapping-lookups and
+     configuration-interleaving streams of harness/props/c13.go (oracle strength). *)
